@@ -1305,6 +1305,7 @@ func init() {
 		Rules: []RuleDef{
 			{Name: "DEPTH-GUARD", What: "csi.(*Index).Add refuses an index deeper than the bin numbering holds: a depth-10 index was written with a statistics bin number that is a real bin's and could not be read back (shared with C04)", Floor: 1, Run: ruleDepthGuard},
 			{Name: "LINEAR-KEEP", What: "Add only extends the linear index and sort only permutes it: what is written is what was recorded (shared with C04)", Floor: 2, Run: ruleLinearKeep},
+			{Name: "CHUNKS-FRESH", What: "answering a query does not write the index: the list a Chunks method sorts and merges in place is built in that call, never an alias of a bin's chunks – or the index written after a query differs from the one written before (shared with C04, C17; here since fifteenth-round seed C15-q)", Floor: 2, Run: ruleChunksFresh},
 			{Name: "WIRE-BAI", What: "internal.WriteIndex and ReadIndex (shared by BAI and tabix): same item widths, loop nesting and field roles, helpers inlined, statistics record aside", Floor: 1, Run: ruleWireIndex("WIRE-BAI", bai)},
 			{Name: "WIRE-CSI", What: "csi.WriteTo and ReadFrom: same items including the version 2 record count", Floor: 1, Run: ruleWireIndex("WIRE-CSI", csi)},
 			{Name: "WIRE-TABIX", What: "tabix.WriteTo and ReadFrom: header items and the shared index body", Floor: 1, Run: ruleWireIndex("WIRE-TABIX", tbx)},
